@@ -45,6 +45,9 @@ def check_case(case: dict):
             routes["10.255.255.255"] += [b["ip"] for b in bad]
         world = discsim.UdpWorld(net, [dict(ip=h["ip"], listen_port=h["listen_port"],
                                             replies=[(h["delay"], h["src_port"], discsim.good_reply(h))]) for h in hosts] + bad, routes)
+        if case.get("send_error"):
+            # sending to one of the two probe ports fails locally; hosts listening on the other port still get the probe and answer
+            world.send_error_ports = {case["send_error"]}
         auto = bool(case.get("auto_connect")) and all(h["version"] == 2 for h in hosts)
         if auto:
             # V2 hosts: reachable over TCP (a model device answers), or refusing / unreachable / hanging
@@ -76,6 +79,7 @@ def check_case(case: dict):
         return (f"raises/{type(res['exc']).__name__}", f"discover raised {res['exc']!r}")
     devs = [d for d in res["devices"] if not d.ip.startswith("10.0.9.")]
     expected_hosts = hosts[:1] if (case.get("single") or case.get("target") == "name") else hosts
+    expected_hosts = [h for h in expected_hosts if h["listen_port"] != case.get("send_error")]
     by_ip = {}
     for d in devs:
         by_ip.setdefault(d.ip, []).append(d)
@@ -162,6 +166,19 @@ def run(ctx) -> None:
                          "listen_port": 6445, "src_port": 6445, "delay": 0.05, "extra": ""}
                     ctx.check({"hosts": [h], "single": u % 3 == 0}, lambda c: _run_one(ctx, c))
     ctx.sweep("name suffixes containing separators", u, True)
+    # the OS refuses to send to one of the two probe ports: the hosts reached through the other port are still reported
+    se = 0
+    for bad_port in (20086, 6445):
+        good_port = 6445 if bad_port == 20086 else 20086
+        for version in (2, 3):
+            for delay in (0.01, 0.5, 4.0):
+                for target in (None, "directed"):
+                    se += 1
+                    if ctx.mine(se):
+                        hs = [{"ip": f"10.5.{se}.{i + 1}", "id": 0x0D0E0F000000 + 8 * se + i, "port": 6444, "sn": f"{se:030d}{i:02d}", "tt": 0xAC, "suffix": "F7B4", "upper": False,
+                               "version": version, "listen_port": good_port, "src_port": good_port, "delay": delay * (i + 1) / 2, "extra": ""} for i in range(2)]
+                        ctx.check({"hosts": hs, "target": target, "send_error": bad_port}, lambda c: _run_one(ctx, c))
+    ctx.sweep("send error on one probe port x version x reply delay x target", se, True)
     # the timeout argument x hosts whose TCP side is slow / absent (every host answers the probe within a tenth of the timeout)
     k = 0
     for timeout in (0.5, 1, 2, 5, 9):
@@ -199,8 +216,8 @@ def run(ctx) -> None:
             return out
         bads = st.lists(st.sampled_from(discsim.BAD_KINDS).flatmap(lambda k: st.sampled_from(c18._args_for(k, lambda n: bytes(range(7, 7 + n)) if n < 200 else bytes(n))).map(
             lambda a: {"kind": k, "arg": a})), max_size=2)
-        return st.tuples(st.sampled_from([None, None, "directed", "name"]), st.booleans(), st.sampled_from([None, None, 0.5, 1.5, 2, 8]), bads).map(
-            lambda t: dict(fin(t), bad=t[3]) if (t[3] and t[0] != "name" and not c.get("single")) else fin(t))
+        return st.tuples(st.sampled_from([None, None, "directed", "name"]), st.booleans(), st.sampled_from([None, None, 0.5, 1.5, 2, 8]), bads, st.sampled_from([None, None, None, 20086, 6445])).map(
+            lambda t: dict(dict(fin(t), bad=t[3]) if (t[3] and t[0] != "name" and not c.get("single")) else fin(t), **({"send_error": t[4]} if t[4] else {})))
     cases = st.one_of(
         st.tuples(host_strategy(1)).map(lambda t: {"hosts": list(t)}),
         st.tuples(host_strategy(1), st.booleans()).map(lambda t: {"hosts": [t[0]], "single": t[1]}),
